@@ -11,6 +11,7 @@ import (
 	"fmt"
 	"math"
 	"strings"
+	"time"
 
 	"golang.org/x/image/font"
 	"golang.org/x/image/font/gofont/gobold"
@@ -84,7 +85,12 @@ func makeFont(name string) (f *sfnt.Font, orig []byte, want map[int][]seg, err e
 		if spec.glyphs != 0 || spec.glyf != 0 {
 			return nil, nil, nil, errors.New("debug-cff takes no parameters")
 		}
-		return debug.MakeSimpleFont(), nil, nil, nil
+		df := debug.MakeSimpleFont()
+		// MakeSimpleFont stamps the font with time.Now(); instances built in
+		// different seconds must still be written as the same file
+		df.CreationTime = time.Date(2024, 5, 17, 12, 0, 0, 0, time.UTC)
+		df.ModificationTime = df.CreationTime
+		return df, nil, nil, nil
 	case "synth-ttf":
 		n := spec.glyphs
 		if n == 0 {
